@@ -14,6 +14,7 @@
 
 //! Elixir Range type support.
 
+use crate::fields::integer_field;
 use erltf::{Atom, OwnedTerm};
 use serde::{Deserialize, Serialize};
 use std::collections::BTreeMap;
@@ -111,13 +112,9 @@ impl ElixirRange {
         }
 
         let map = term.as_map()?;
-        let first_key = OwnedTerm::Atom(Atom::new("first"));
-        let last_key = OwnedTerm::Atom(Atom::new("last"));
-        let step_key = OwnedTerm::Atom(Atom::new("step"));
-
-        let first = map.get(&first_key)?.as_integer()?;
-        let last = map.get(&last_key)?.as_integer()?;
-        let step = map.get(&step_key)?.as_integer()?;
+        let first = integer_field(map, "first")?;
+        let last = integer_field(map, "last")?;
+        let step = integer_field(map, "step")?;
 
         Some(Self { first, last, step })
     }
